@@ -166,11 +166,15 @@ Definition special_table : list (N * list byte) :=
    (0%N, [78; 117; 108; 108]%N)].                           (* Null: repo_fixes C03-12 *)
 Definition special_char (r : N) : option (list byte) :=
   match find (fun e => (fst e =? r)%N) special_table with Some e => Some (snd e) | None => None end.
-(* Character.Append (after #\) and Character.Readably *)
+(* Character.Append (after #\) and Character.Readably: control characters and the ASCII characters the reader's
+   character mode does not take as part of the token (parentheses, quotes, semicolon ...) are written by code
+   (repo_fixes C03-13) *)
+Definition char_by_code (r : N) : bool :=
+  (r <? 32)%N || ((r <? 128)%N && match act T03 MChar r with ASkip => false | _ => true end).
 Definition char_name (r : N) : list byte :=
   match special_char r with
   | Some s => s
-  | None => if (r <? 32)%N then [117; 48; 48; hexd (r / 16); hexd (r mod 16)]%N else utf8 r
+  | None => if char_by_code r then [117; 48; 48; hexd (r / 16); hexd (r mod 16)]%N else utf8 r
   end.
 Definition char_text (c : pcfg) (r : N) : list byte :=
   if p_escape c then [35; 92]%N ++ char_name r else utf8 r.
